@@ -1,7 +1,7 @@
 (* C02: the reference reader gives back what the plain serializer wrote.  Lemmas. *)
 From Coq Require Import Lia.
 From Delb.Base Require Import PyStr PyStrFacts PyDict PyDictFacts.
-From Delb.Gen Require Import GenNames GenNs GenValidators.
+From Delb.Gen Require Import GenNames GenNs GenValidators GenNsValidators.
 From Delb.Tree Require Import ATree Merge MergeFacts.
 From Delb.Ns Require Import Namespaces NamespacesFacts Prefixes PrefixFacts.
 From Delb.Xml Require Import Plain PlainFacts Reader Tokens.
@@ -562,4 +562,24 @@ Proof.
       rewrite (N.eqb_sym c), (N.eqb_sym d). exact HP.
   - destruct r as [|d r']; [reflexivity|]. apply IH; [exact HC|].
     rewrite <- HE. symmetry. apply py_endswith_cons. discriminate.
+Qed.
+
+(* ---- the generated attribute-name and PI-content validators give what the round trip needs ----------------------- *)
+Lemma attr_validator_ok ns l : attribute_name_refused ns l = false -> l <> XMLNS_ /\ ns <> xmlns_ns.
+Proof.
+  unfold attribute_name_refused. intros H. apply orb_false_iff in H. destruct H as [H1 H2].
+  split; intros ->; [exact (eq_true_false_abs _ (str_eqb_refl XMLNS_) H1) | exact (eq_true_false_abs _ (str_eqb_refl xmlns_ns) H2)].
+Qed.
+Lemma attr_wf_wf0 a : attr_wf a -> attr_wf0 a.
+Proof.
+  destruct a as [[ns l] v]. intros [H1 [H2 [H3 H4]]]. destruct (attr_validator_ok _ _ H2) as [A B].
+  repeat split; assumption.
+Qed.
+Lemma attrs_wf0 attrs : Forall attr_wf attrs -> Forall attr_wf0 attrs.
+Proof. intros H. eapply Forall_impl; [|exact H]. exact attr_wf_wf0. Qed.
+Lemma pi_validator_ok c : pi_content_refused c = false -> starts_ws c = false.
+Proof.
+  unfold pi_content_refused. destruct c as [|x r]; [reflexivity|]. unfold py_startswith. cbn [py_prefix starts_ws].
+  rewrite !andb_true_r. intros H. repeat (apply orb_false_iff in H; destruct H as [H ?]).
+  unfold is_xml_ws. rewrite !(N.eqb_sym x). rewrite H, H0, H1, H2. reflexivity.
 Qed.
